@@ -590,6 +590,8 @@ def do_check(cid, tier, seed):
         print("(%d further violation class(es) not minimised: %s ...)" % (len(extra_classes), ", ".join(sorted(extra_classes))[:600]))
     for kid, (k, cnt) in sorted(known_hit.items()):
         print("KNOWN-FINDING: property=%s %s [%s, hit %d times]" % (cid, k["what"], kid, cnt))
+    # a violation that passed both gates decides the exit status (1); gate failures alone mean harness trouble (2)
+    if reported: rc = 1
     wall = time.time() - t0
     runs = stats.get("runs", 0)
     coverage = meta.coverage(cid, stats, distinct, samples, runs, wall, total_all)
